@@ -121,7 +121,7 @@ Definition edges_model_o (o : opts) (pr : project) : list edge := g_edges (Analy
 
 (* FollowRelative = false: the relative import statements of the analysed file contribute nothing *)
 Definition is_rel (s : import_stmt) : bool :=
-  match i_form s with ImportRel _ _ _ => true | _ => false end.
+  match i_form s with ImportRel lv _ _ => Nat.ltb 0 lv | _ => false end.
 
 Definition strip_rel (m : pymodule) : pymodule :=
   {| m_path := m_path m; m_is_pkg := m_is_pkg m;
